@@ -106,6 +106,26 @@ CHECKS = {
         note="n_row_combinations is tied and enumerated but has no theorem yet. At least one row and column; bounds within int16 range; float64 floor division assumed exact on generated magnitudes.",
         technique="Lean 4 theorem (Int.ediv lemmas, list induction) + differential correspondence + enumeration oracle",
         ref="§4 C12"),
+    "C19": dict(
+        text=("Theorems (Props/C19.lean): satisfied_spec (all rows hold), separable_spec and separable_eq_not_satisfied (the "
+              "negation), ineqSep_spec (per row: some point of the group violates it), shapes (vector -> scalar, matrix -> "
+              "vector, stack -> matrix; one entry per row for ineq_separate_points). Near-definitional in the model; the "
+              "assurance comes from the tie: ineqs_satisfied / separable / ineq_separate_points compared with the model on "
+              "seeded matrices x points of ndim 1, 2, 3 including nesting shape and scalar-vs-array; oracle: A x >= b with "
+              "Python ints."),
+        note="Thin theorems (List.all/any specifications); most of the assurance is the correspondence.",
+        technique="Lean 4 theorem (List.all/any specs) + differential correspondence incl. output shapes",
+        ref="§4 C19"),
+    "C20": dict(
+        text=("Theorems (Props/C20.lean): construct_get + entry_spec (given value at the id's column, else the declared default: "
+              "callable / lower bound / NaN; unknown ids never looked up), fromListBool_get, fromListInt_get + idxOf_first "
+              "(1-based first position), toList_mem, varIndices_partition + varIndices_range (bool/int index sets partition "
+              "the columns by bounds = (0,1)), splitRow_spec. Tie: construct (all dtype/default combinations), both "
+              "from_list's (flat and nested), to_list, the index properties and A/b of a polyhedron compared with the model "
+              "on variable lists with ascii/unicode/int/tuple ids."),
+        note="Ids are carried as canonical text; tuple ids are not used inside boolean from_list's `lst` (a tuple in first position is the documented nested-group form). Thin theorems; most of the assurance is the correspondence.",
+        technique="Lean 4 theorem (list lemmas) + differential correspondence",
+        ref="§4 C20"),
     "C03": dict(
         text=("Theorems (Props/C03.lean): on every interpretation fixing all leaves, interval evaluation returns exactly the "
               "point value of the arithmetic truth function with the two override rules (evaluate_total), which is the plain "
